@@ -85,8 +85,9 @@ def make_class(kind, spec, service_wrapped=False, ephemeral=False):
         return _CLASS_CACHE[key]
     params = ["self"]
     nonleaf = kind in ("controller", "decorator")
+    first = spec.get("first", "target")  # what the constructor calls the pool it is put in front of
     if nonleaf:
-        params.append("target")
+        params.append(first)
     names = []
     for name, has_default in spec["pos"]:
         params.append(name + ("='<default %s>'" % name if has_default else ""))
@@ -100,16 +101,24 @@ def make_class(kind, spec, service_wrapped=False, ephemeral=False):
         names.append(name)
     if spec["varkw"]:
         params.append("**extra")
-    body = ["def __init__(%s):" % ", ".join(params)]
+    via_new = bool(spec.get("via_new"))  # the arguments are taken by a strict __new__ (interned / frozen instances), __init__ takes anything
+    if via_new:
+        params[0] = "cls"
+        body = ["def __new__(%s):" % ", ".join(params), "    self = object.__new__(cls)"]
+    else:
+        body = ["def __init__(%s):" % ", ".join(params)]
     if nonleaf:
-        body.append("    BASE.__init__(self, target)")
+        body.append("    BASE.__init__(self, %s)" % first)
     body.append("    self.bound = {%s}" % ", ".join("%r: %s" % (n, n) for n in names))
     body.append("    self.rest = %s" % ("tuple(rest)" if spec["varargs"] else "()"))
     body.append("    self.extra = %s" % ("dict(extra)" if spec["varkw"] else "{}"))
     body.append("    LOG.append(self)")
+    if via_new:
+        body += ["    return self", "def __init__(self, *args, **kwargs):", "    pass"]
     ns = {"BASE": BASES[kind], "LOG": LOG}
     exec("\n".join(body), ns)
-    cls = type("Gen%s%d" % (kind.title(), len(_CLASS_CACHE)), (BASES[kind],), {"__init__": ns["__init__"]})
+    members = {"__new__": ns["__new__"], "__init__": ns["__init__"]} if via_new else {"__init__": ns["__init__"]}
+    cls = type("Gen%s%d" % (kind.title(), len(_CLASS_CACHE)), (BASES[kind],), members)
     if service_wrapped:
         import trio
         from cobald.daemon.runners.service import service
@@ -126,7 +135,8 @@ def gen_spec(rnd):
     pos = [["p%d" % i, i >= npos - ndef] for i in range(npos)]
     nkw = rnd.choice([0, 0, 1, 2])
     kwonly = [["k%d" % i, rnd.random() < 0.5] for i in range(nkw)]
-    return {"pos": pos, "varargs": rnd.random() < 0.3, "kwonly": kwonly, "varkw": rnd.random() < 0.3}
+    return {"pos": pos, "varargs": rnd.random() < 0.3, "kwonly": kwonly, "varkw": rnd.random() < 0.3,
+            "first": rnd.choice(["target", "target", "target", "pool", "subject"]), "via_new": rnd.random() < 0.12}
 
 
 # ------------------------------------------------------------------------------ binding model
@@ -139,7 +149,7 @@ def model_partial(spec, leaf, positionals, keywords, pool_first=False):
 
     Written from the language rules for calls, not from inspect.
     """
-    if "target" in keywords and not leaf:
+    if (spec.get("first", "target") in keywords or "target" in keywords) and not leaf:
         raise BindError("target passed by keyword")
     if pool_first and not leaf:
         raise BindError("target passed positionally")
@@ -431,6 +441,7 @@ def shipped():
 
 
 def gen_eager(rnd, spec):
+    kind_is_generated = False
     if rnd.random() < 0.35:
         name = rnd.choice(["Standardiser", "Logger", "PoolDecorator", "Buffer", "LinearController", "RelativeSupplyController",
                            "DemandSwitch", "UniformComposite", "WeightedComposite", "FactoryPool"])
@@ -446,6 +457,7 @@ def gen_eager(rnd, spec):
         }[name]
         npos_max = 7
     else:
+        kind_is_generated = True
         sp = gen_spec(rnd)
         kind = rnd.choice(["controller", "decorator", "pool", "composite"])
         if kind == "composite":
@@ -469,7 +481,9 @@ def gen_eager(rnd, spec):
             if from_names and r < 0.7:
                 kw[rnd.choice(from_names)] = rnd.randint(1, 9)
             elif r < 0.8:
-                kw["target"] = "<POOL>"
+                # the pool given by keyword, under the name the constructor has for it
+                first = target.get("spec", {}).get("first", "target") if kind_is_generated else "target"
+                kw[first] = "<POOL>" if rnd.random() < 0.7 else rnd.randint(1, 9)
             else:
                 kw[rnd.choice(["foo", "rest", "extra", "x0", "args", "kwargs", "ctor", "leaf"])] = 1
         calls.append([pos, kw])
@@ -538,6 +552,10 @@ def run_eager(case, result):
                     bool(new_pos) and isinstance(new_pos[0], Pool) and not leaf)
                 if wrapped and only_signature:
                     mech = "C04/service-wrapped-ctor"
+                if wrapped and only_signature and spec.get("via_new"):
+                    # the class takes its arguments in a strict __new__ and has a permissive __init__; the service decorator
+                    # puts its own __new__(cls, *args, **kwargs) in front, so no signature is left that could refuse anything
+                    mech = "C04/service-class-with-strict-new"
                 problems.append(("call %d on %s: arguments %r %r can never bind (%s) but were accepted"
                                  % (idx, label, new_pos, new_kw, reason), mech))
                 break
